@@ -23,7 +23,7 @@ func checkC08(c *Ctx) {
 	c.Rule("C08.R3", "FIN is numbered after all data and ends writing: sendFin takes s.frameNo and then increments it under s.m and sets finSent; write appends nothing once finSent is set; the receiver marks end-of-stream only for the in-order FIN fragment (E1)")
 	c.Rule("C08.R4", "the retransmission timer stays armed: every path of recvAck that stops the ticker and returns a nil error re-arms it (resetRetransmitTicker) after the stop (E1 pairing)")
 	c.Decides("who may discard unacknowledged data, the in-order condition of delivery, FIN ordering, stop/re-arm pairing of the retransmission timer")
-	c.NotDecided("liveness under outage and recovery, duplicate-ack limits, RTO arithmetic, sequence-number unwrapping (value- and schedule-dependent)")
+	c.NotDecided("liveness under outage and recovery (incl. how many frames a retransmission timeout resends: seeded change C08-5 is not reported), duplicate-ack limits, RTO arithmetic, sequence-number unwrapping (value- and schedule-dependent)")
 
 	fFrames := P.Field("tubes", "sender", "frames")
 	if fFrames == nil {
